@@ -1826,15 +1826,30 @@ BTree_rangeSearch(BTree *self, PyObject *args, PyObject *kw, char type)
         UNLESS (PER_USE(lowbucket))
             goto err_and_decref_buckets;
         COPY_KEY(first, lowbucket->keys[lowoffset]);
+        /* The buckets are unpinned before the comparison runs, and the
+         * comparison can run arbitrary code (which may ghostify them), so
+         * the keys must be owned, not borrowed.
+         */
+        INCREF_KEY(first);
         PER_UNUSE(lowbucket);
 
         UNLESS (PER_USE(highbucket))
+        {
+            DECREF_KEY(first);
             goto err_and_decref_buckets;
+        }
         COPY_KEY(last, highbucket->keys[highoffset]);
+        INCREF_KEY(last);
         PER_UNUSE(highbucket);
 
         TEST_KEY_SET_OR(cmp, first, last)
+        {
+            DECREF_KEY(first);
+            DECREF_KEY(last);
             goto err_and_decref_buckets;
+        }
+        DECREF_KEY(first);
+        DECREF_KEY(last);
         if (cmp > 0)
                 goto empty_and_decref_buckets;
     }
